@@ -7,30 +7,52 @@ P = {
                   'recorded Hash field) and the same sender under every signer; fee / cost / effective price / effective fee / effective '
                   'cost of the message equal go-ethereum\'s for nil and every non-negative base fee (dynamic-fee with nil base fee: the Go '
                   'code panics, stated as a theorem and recorded as an observation); RLP as go-ethereum writes it is proved injective and '
-                  'prefix-free via a verified decoder. The model is compared on every run with the real '
-                  'FromEthereumTx/BuildTx/TxEncoder/TxDecoder/AsTransaction and, byte for byte, with go-ethereum\'s signing and hash preimages',
+                  'prefix-free via a verified decoder. Unwrapping is also modelled as what it is in the code, a lookup by hash '
+                  '(UnwrapEthereumMsg): for ALL envelopes (any number of messages, arbitrary recorded Hash and From texts) and all '
+                  'requested hashes, a successful lookup returns a member whose Ethereum hash is the requested one with its recorded hash '
+                  'refreshed to it, a lookup fails exactly when no member has the requested hash, the answer does not depend on the '
+                  'recorded Hash / From fields, and an envelope containing the wrapped transaction A asked for hash(A) answers A; a '
+                  'one-message fast path that skips the hashing is refuted by a witness. The model is compared on every run with the real '
+                  'FromEthereumTx/BuildTx/TxEncoder/TxDecoder/AsTransaction/UnwrapEthereumMsg and, byte for byte, with go-ethereum\'s '
+                  'signing and hash preimages',
     'level_note': 'trusted: Coq kernel + vm_compute; the hand-written model (tied to /repo by the sampled correspondence run); protobuf/Any/TxRaw '
                   'encoding, the decimal wire form of sdkmath.Int and the EIP-55 checksum casing are not modelled (sampled: every generated '
                   'transaction goes through the real encoder and decoder); Keccak and ECDSA enter as arbitrary functions; no axioms',
     'technique': 'Coq proof (round-trip identities, RLP injectivity via a decoder) + differential correspondence against the real codec and go-ethereum',
     'drivers': [
-        {'name': 'txcodec', 'n': {'quick': 600, 'thorough': 12000}, 'batch': 4000},
+        {'name': 'txcodec', 'n': {'quick': 600, 'thorough': 12000}, 'batch': 4000, 'shrink_field': 'lookups'},
     ],
     'coq_header': 'From Coq Require Import Ascii String.\nFrom Coq Require Import ZArith NArith List.\n'
                   'From HV Require Import Base.Bytes TxCodec.EthTxModel.\nImport ListNotations.\nLocal Open Scope string_scope.',
     'lists': {'cases': {'type': 'eth_tx * obs', 'check': 'mismatches', 'shard': 50},
-              'big': {'type': 'eth_tx * obs', 'check': 'mismatches', 'shard': 1}},
+              'big': {'type': 'eth_tx * obs', 'check': 'mismatches', 'shard': 1},
+              'unwraps': {'type': 'unwrap_case', 'check': 'mismatches_unwrap', 'shard': 25},
+              'bigunwraps': {'type': 'unwrap_case', 'check': 'mismatches_unwrap', 'shard': 1}},
     'search': {'rounds': 4, 'n': 3000},
     'rule': 'a case is one Ethereum transaction (type, signer chain id, nonce, prices, gas, To or creation, value, data, access list, key; '
             'amounts nil/zero/boundary/2^256-1/beyond 256 bits; data 0..65537 bytes; access lists with repeated addresses and empty key '
             'lists, up to 330 entries; 12% with arbitrary unsigned/malformed V,R,S) signed with go-ethereum and passed through '
             'FromEthereumTx, BuildTx, TxEncoder, TxDecoder, AsTransaction; non-trivial = the whole round trip completed (the wrap was not '
-            'refused for a value above 256 bits); distinct = distinct inputs',
+            'refused for a value above 256 bits); distinct = distinct inputs. Every transaction that wraps is, in a second case, the target of '
+            'lookups by hash (about 55 per transaction, explicit in the input): envelopes [A], [A,B]/[B,A], permutations of {A,B,C} and '
+            '{A,B,C,D} (B,C,D short transactions of the same generator; 10% with A twice) are built (one message: the real BuildTx), encoded with '
+            'the real TxEncoder, decoded with the real TxDecoder and handed to the real UnwrapEthereumMsg with the requested hash in {hash(A), '
+            'hash of every other member, hash of a transaction not in the envelope, the zero hash, a member\'s hash with one bit flipped}; '
+            'the same with the recorded Hash of a member forged before encoding (to another member\'s hash, two members swapped, to a foreign '
+            'hash, every member to the foreign hash, to the empty string, to arbitrary text) and with a member\'s From forged. Oracle per '
+            'lookup: a returned message has AsTransaction().Hash() = the REQUESTED hash, recorded Hash = its Ethereum hash, and the sender '
+            '(real signer), all fields and the fee / cost / effective price / effective fee / effective cost figures of the original '
+            'transaction with that hash; the hash of a member must be found; a hash no member has must be refused. The model (unwrap_scan) is '
+            'compared on found / not found, the position of the member returned and the Hash and From of every member after the call (in '
+            'the quick tier on the lookups of every third generated transaction and on the whole corpus; in the thorough tier on all); '
+            'non-trivial = some lookup of the case was answered and some refused',
     'trusted_base': [
         'Coq 8.16.1 kernel incl. vm_compute (no native_compute)',
         'axioms: none (Print Assumptions: closed under the global context for every theorem of Props/C18.v)',
         'correspondence harness harness/txcodec.go + vlib/core.py (generator, oracle; go-ethereum types.SignTx, rlp.EncodeToBytes, '
         'MarshalBinary as the reference for signing, preimages and figures)',
+        'in the lookup cases the hash function of the model is the finite graph {model\'s hash preimage of pool transaction i -> '
+        'tx.Hash() observed}; that the preimage is the byte string go-ethereum hashes is checked by the per-transaction cases',
         'modelled, not verified: nothing between TxData and TxData (protobuf / Any / TxRaw bytes, BuildTx, TxEncoder, TxDecoder are '
         'exercised on every case but not modelled); EIP-55 casing of Address.Hex enters as an arbitrary function; Keccak-256 and ECDSA '
         'recovery enter the theorems as arbitrary functions',
@@ -40,5 +62,8 @@ P = {
         'the effective-price comparison with a nil base fee is not applied to dynamic-fee transactions (EffectiveGasPrice(nil) panics there; '
         'a nil base fee means London is inactive and the ante handler refuses dynamic-fee transactions)',
         'transactions whose gasPrice*gas exceeds 256 bits are outside the domain: BuildTx panics and ValidateBasic refuses them (both checked)',
+        'envelopes consist of MsgEthereumTx only (UnwrapEthereumMsg refuses a transaction as soon as it meets another message type: not exercised); '
+        'a message whose To / access-list text is not well-formed hex (never written by FromEthereumTx: C18_roundtrip_fields) is outside the '
+        'model of the lookup',
     ],
 }
